@@ -59,6 +59,14 @@ Theorem C06_program_complete : forall it p env,
   exists c, gen_from_repr it = Ok c.
 Proof. exact C06_program_complete_proof. Qed.
 
+(* the parameter type: the #[repr] scan of from_repr.rs (every hint of every attribute, in source order) returns THE integer hint
+   however the attribute is written (before, after or next to C / align(..) / packed, in one attribute or several), usize when there is none *)
+Theorem C06_repr_scan : forall attrs,
+  scan_repr attrs = last (int_hints (concat attrs)) RUsize /\
+  (int_hints (concat attrs) = [] -> scan_repr attrs = RUsize) /\
+  (forall r, int_hints (concat attrs) = [r] -> scan_repr attrs = r).
+Proof. exact C06_repr_scan_proof. Qed.
+
 (* non-vacuity: enum E { X, #[strum(disabled)] Y(u8), Z = -3, W } under #[repr(i8)] *)
 Definition ex_variant id fs ms d := {| v_ident := s_ id; v_fields := fs; v_metas := ms; v_discr := d; v_dmetas := [] |}.
 Definition ex_field := {| f_name := []; f_ty := s_ "u8"; f_is_ref := false; f_dw := [] |}.
@@ -79,6 +87,10 @@ Proof.
   - split; [vm_compute; reflexivity|]. split; [vm_compute; reflexivity|].
     eexists. split; [vm_compute; reflexivity|]. repeat split; vm_compute; reflexivity.
 Qed.
+Example C06_repr_scan_nonvacuous :
+  scan_repr [[HOtherHint; HInt RI16]; [HOtherHint]] = RI16 /\ scan_repr [[HOtherHint]; [HOtherHint; HOtherHint]] = RUsize /\
+  int_hints (concat [[HOtherHint; HInt RI16]; [HOtherHint]]) = [RI16].
+Proof. repeat split. Qed.
 
 Check C06_iff : forall it c, gen_from_repr it = Ok c -> NoDup (rustc_discr (i_variants it)) ->
   forall x i nf, run_from_repr c x = Some (i, nf) <->
@@ -91,4 +103,5 @@ Print Assumptions C06_const.
 Print Assumptions C06_total.
 Print Assumptions C06_program.
 Print Assumptions C06_program_complete.
+Print Assumptions C06_repr_scan.
 Print Assumptions C06_nonvacuous.
